@@ -22,6 +22,8 @@ mod text;
 pub use image::{ImageHrefDataResolverFn, ImageHrefResolver, ImageHrefStringResolverFn};
 pub use options::Options;
 pub(crate) use svgtree::{AId, EId};
+#[cfg(resvg_verif)]
+pub use svgtree::verif as verif_svgtree;
 
 /// List of all errors.
 #[derive(Debug)]
